@@ -186,6 +186,29 @@ claim("C19", "model_checking",
       "TLA+ spec + TLC model checking; replay under a virtual clock on real client groups; TLC trace validation of concurrent round-robin",
       "DESIGN.md 4/C19", "clientgroup")
 
+claim("C01", "model_checking",
+      "specs/Stream/SS2022Stream.tla carries byte positions as intervals and frames with their nonces: Dial (padding rules, request/payload "
+      "split, identity headers), Deliver(k) (transport segmentation), ServerHandle, Write (first-write layout), ReadFrom, Read (left-over "
+      "handling, direct/buffered paths), WriteTo, Relay (tunnel-to-tunnel both ways), CloseWrite; TLC checks Prefix/Conservation/Lockstep/"
+      "RequestFaithful/EofLast/FramesOK and EventuallyDrained under fairness with toy constants exhaustively and with the real constants "
+      "(measured from the compiled code) on graphs. The graphs are replayed edge by edge on the real StreamClient.DialStream / "
+      "StreamServer.HandleStream / conns over a scripted fragmenting transport with position-coded payloads; every byte read, the end-of-stream "
+      "point and the request's target, user and payload split are compared.",
+      "AEAD and key derivation are trusted (observed on the replayed bytes); a read that would block is modelled as not enabled; quick replays a "
+      "seeded 900-path cover per primary graph; identity-header chains deeper than 1 end in relays built in the harness.",
+      "TLA+ spec + TLC model checking; state-graph replay over a scripted fragmenting transport against the real tunnel endpoints",
+      "DESIGN.md 4/C01", "stream")
+claim("C02", "model_checking",
+      "specs/Stream/SS2022Attack.tla lets the reader consume bytes (not frames) with AEAD as an axiom blind to the frame kind, an attacker with "
+      "Flip/Cut/Drop/Dup/Swap/Splice/Junk/Substitute applied to a second recorded session of the same or another key, and the reader calls "
+      "ServerHandle (with fallback), ClientFirst (salt binding), Read; TLC checks OnlyGenuinePrefix/TouchFails/NoForgery/ResponseBound/"
+      "FallbackOnlyUnauthenticated/NonceOnlyOnOpen (the as-coded variant without the read latch must violate OnlyGenuinePrefix). Each behaviour "
+      "records genuine sessions, applies the operators at byte level to the real ciphertext (every byte of handshake and length frames in "
+      "thorough), and a fresh real endpoint consumes the result while the driver keeps reading after errors.",
+      "At most 2 attacker operations per behaviour, applied before reading starts; AEAD assumed correct; reject policies not exercised.",
+      "TLA+ attacker spec + TLC model checking; byte-level tamper replay of recorded real sessions against fresh real endpoints",
+      "DESIGN.md 4/C02", "stream")
+
 NA = {}
 
 def main():
